@@ -253,6 +253,30 @@ def analyze(ctx, want):
         ctx.floor(rule, "%s-path reachable functions" % group, nreach, {"scan": 40, "build": 100, "dot": 5}[group])
         total = 0
         classes = Counter()
+
+        def type_of_fn(nm):
+            # the impl / module a function belongs to: moving an expression between methods of one type keeps the account
+            if nm.startswith("<"):
+                m_ = re.match(r"^(<.*? as .*?>)::", nm)
+                return m_.group(1) if m_ else nm
+            return nm.rsplit("::", 1)[0]
+
+        def merge_kind(k):
+            return "call:access" if k in ("call:unwrap", "call:index") else k
+        from . import symex as S_
+        voc = S_.vocabulary()
+        grp_allowed = Counter()
+        for r in TABLE:
+            for vn in voc:
+                if re.search(r[0], vn):
+                    grp_allowed[(type_of_fn(vn), merge_kind(r[1]))] += r[2]
+                    break
+        grp_actual = Counter()
+        for name, (c0, locs0, fn) in g.items():
+            for kind, n in c0.items():
+                if kind.split(":")[-1] in PTR_CHECKS:
+                    continue
+                grp_actual[(type_of_fn(name), merge_kind(kind))] += n
         for name, (c0, locs0, fn) in sorted(g.items()):
             # `v[i]`, `v.get(i).unwrap()`, `opt.unwrap()`: one class of site ("access that presumes presence"); rewriting one
             # into the other does not change what has to be justified, so they are counted together per function
@@ -272,7 +296,16 @@ def analyze(ctx, want):
                 rows = [r for r in TABLE if re.search(r[0], name) and (r[1] == kind or (kind == "call:access" and r[1] in ("call:unwrap", "call:index")))]
                 allowed = sum(r[2] for r in rows)
                 ok = n <= allowed
+                moved = False
+                if not ok:
+                    # more sites than this function had: were they moved here from another method of the same type
+                    # (a helper inlined, two methods merged)?  Then the type's account is unchanged.
+                    gk = (type_of_fn(name), kind)
+                    if grp_actual[gk] <= grp_allowed[gk] and grp_allowed[gk] > 0:
+                        ok = moved = True
                 why = rows[0][4] if rows else ""
+                if moved:
+                    why = "sites moved between methods of %s: %d site(s) of this kind in the type, %d justified in rules/panics.py" % (M.short_name(gk[0]), grp_actual[gk], grp_allowed[gk])
                 cls = rows[0][3] if rows else "unjustified"
                 classes[cls if ok else "unjustified"] += n
                 if ok:
